@@ -130,6 +130,11 @@ CHAIN_FILES = {
     "b_mixed.exps": 'import "./c_ok.exps";\nimport "./c_broken.exps";\nmacro mbx() {\n    b_op();\n}\n',
     "b_routine.exps": 'import "./c_routine.exps";\nmacro mbr() {\n    b_op();\n}\n',
     "b_stray.exps": 'import "./c_ok.exps";\nmacro mbs() {\n    break;\n}\n',
+    # four files that define a macro of the same name: the import that comes LAST in the text wins, in every process
+    "dup_a.exps": "macro same() {\n    from_a();\n}\nmacro only_a() {\n    a_op();\n}\n",
+    "dup_b.exps": "macro same() {\n    from_b();\n}\n",
+    "dup_c.exps": "macro same() {\n    from_c();\n}\n",
+    "dup_d.exps": "macro same() {\n    from_d();\n}\n",
 }
 
 
@@ -150,6 +155,8 @@ def chain_calls() -> list[dict]:
         _chain("chain:valid-imports-b_ok", "a6.exps", 'import "./b_ok.exps";\n' + main.format("~mbo();")),
         _chain("chain:valid-imports-c_ok-lib_ok", "a7.exps", 'import "./c_ok.exps";\nimport "./lib_ok.exps";\n' + main.format("~mco();\n    ~lib(2);")),
         _chain("chain:valid-same-file-name-as-a1", "a1.exps", 'import "./b_ok.exps";\n' + main.format("~mbo();")),
+        _chain("chain:same-macro-name-in-four-imports", "a8.exps", 'import "./dup_c.exps";\nimport "./dup_a.exps";\nimport "./dup_d.exps";\nimport "./dup_b.exps";\n' + main.format("~same();\n    ~only_a();")),
+        _chain("chain:same-macro-name-in-four-imports-other-order", "a9.exps", 'import "./dup_b.exps";\nimport "./dup_d.exps";\nimport "./dup_a.exps";\nimport "./dup_c.exps";\n' + main.format("~same();")),
         # a text that fails midway, compiled under the NAME of a file that later calls import
         _chain("chain:broken-text-under-name-lib_ok", "lib_ok.exps", 'import "./c_broken.exps";\n' + _LIB_OK),
         _chain("chain:broken-text-under-name-b_ok", "b_ok.exps", 'import "./c_ok.exps";\nimport "./c_broken.exps";\nmacro mbo() {\n    b_op();\n}\n'),
@@ -1088,6 +1095,30 @@ def run(ctx: Ctx) -> PropResult:
             n_pool_c = sum(1 for c in pool if c["kind"] == "compile")
             r_base = ar_rbase.get()
             r_baseline = [d for d, _ in r_base]
+            # ---- P (process): the same calls in fresh processes started with OTHER string-hash seeds (the registered command pins
+            # PYTHONHASHSEED=0 for its own reproducibility; a result that depends on the iteration order of a set of strings
+            # would differ between ordinary processes).  Every compile call (incl. the import chains) and every decompile call.
+            p_calls = r_calls + [c for c in pool if c["kind"] != "compile"]
+            p_base = r_baseline + [baseline[i] for i, c in enumerate(pool) if c["kind"] != "compile"]
+            saved_hs = os.environ.get("PYTHONHASHSEED")
+            p_evals = 0
+            try:
+                for hs in ("1", "7", "12345") + (("99", "31337", "2", "3") if ctx.thorough else ()):
+                    os.environ["PYTHONHASHSEED"] = hs
+                    with FreshProcesses(mp, ctx.jobs) as fresh_hs:
+                        got = fresh_hs.map(task_baseline, [(root, c) for c in p_calls], chunksize=1)
+                    for c, want, (d, text) in zip(p_calls, p_base, got):
+                        p_evals += 1
+                        if d != want:
+                            sig = f"C11:P:{c['kind']}:{c['name']}:differs-with-another-string-hash-seed"
+                            if not any(v.signature == sig for v in res.violations):
+                                res.violations.append(Violation(signature=sig, what=f"call {c['name']} gives different bytes in a fresh process started with PYTHONHASHSEED={hs} than with PYTHONHASHSEED=0", input={"history": [], "observed": c, "hash_seed": hs}, contract="a call's result in a fresh process does not depend on the process (string hash seed)", observed={"with_seed_" + hs: text[:1500]}))
+            finally:
+                if saved_hs is None:
+                    os.environ.pop("PYTHONHASHSEED", None)
+                else:
+                    os.environ["PYTHONHASHSEED"] = saved_hs
+            res.standins.append(StandIn(contract="P: a call's result in a fresh process does not depend on the string hash seed of the process", tier="T3", bound=f"{len(p_calls)} calls (all compile calls incl. import chains with one macro name defined by four imported files, all decompile calls) x {p_evals // max(1, len(p_calls))} hash seeds, each call in its own process", evaluations=p_evals, distinct_nontrivial=len(p_calls), exhaustive=False, samples=[p_calls[-1]["name"]]))
             all_idx = list(range(len(r_calls)))
             chain_idx = all_idx[n_pool_c:]
             orders = list(itertools.product(all_idx, repeat=2)) + list(itertools.product(chain_idx, repeat=3))
@@ -1387,6 +1418,21 @@ def replay(record: dict, ctx: Ctx) -> bool:
     try:
         with FreshProcesses(mp, 2) as fresh:
             mode = inp.get("mode", "history")
+            if mode == "history" and inp.get("hash_seed") is not None:
+                # clause P: the call alone with PYTHONHASHSEED=0 and with the recorded seed, each in a fresh process
+                saved = os.environ.get("PYTHONHASHSEED")
+                digs = []
+                try:
+                    for hs in ("0", str(inp["hash_seed"])):
+                        os.environ["PYTHONHASHSEED"] = hs
+                        with FreshProcesses(mp, 1) as f2:
+                            digs.append(f2.apply(task_baseline, ((root, inp["observed"]),))[0])
+                finally:
+                    if saved is None:
+                        os.environ.pop("PYTHONHASHSEED", None)
+                    else:
+                        os.environ["PYTHONHASHSEED"] = saved
+                return digs[0] != digs[1]
             if mode == "history":
                 alone = fresh.apply(task_baseline, ((root, inp["observed"]),))[0]
                 digs = fresh.apply(task_run_words, ((root, inp["history"] + [inp["observed"]]),))
